@@ -65,6 +65,7 @@ theorem startsAtIndexWith_hasPrefix {s m : Bytes} {i : Nat} (h : startsAtIndexWi
 theorem findCosmeticRuleMarkerWith_skip (fc : UInt8) (more : List UInt8) (markers : List Bytes) (line : Bytes)
     (h : ∀ i, indexByte line fc = some i →
       (i > 0 ∧ (line[i - 1]? = some (ch ' ') ∨ line[i - 1]? = some (ch '\t'))) ∨
+      inHostsComment line i = true ∨
       ∀ m ∈ markers, startsAtIndexWith line i m = false) :
     findCosmeticRuleMarkerWith (fc :: more) markers line = findCosmeticRuleMarkerWith more markers line := by
   rw [findCosmeticRuleMarkerWith]
@@ -72,21 +73,28 @@ theorem findCosmeticRuleMarkerWith_skip (fc : UInt8) (more : List UInt8) (marker
   | none => rfl
   | some i =>
     simp only
-    rcases h i hi with ⟨hpos, hb⟩ | hnone
+    rcases h i hi with ⟨hpos, hb⟩ | hcm | hnone
     · have : (decide (i > 0) && (line[i - 1]? == some (ch ' ') || line[i - 1]? == some (ch '\t'))) = true := by
         rcases hb with hb | hb <;> simp [hpos, hb]
       simp [this]
     · split
       · rfl
-      · have : markers.find? (fun m => startsAtIndexWith line i m) = none := by
-          rw [List.find?_eq_none]
-          intro m hm
-          simp [hnone m hm]
-        simp [this]
+      · rfl
+    · split
+      · rfl
+      · split
+        · rfl
+        · have : markers.find? (fun m => startsAtIndexWith line i m) = none := by
+            rw [List.find?_eq_none]
+            intro m hm
+            simp [hnone m hm]
+          simp [this]
 
 theorem markers_shape :
     Facts.H.cosmeticMarkers.all (fun m => m.head? == some (ch '#') || m == lit "$$" || m == lit "$@$") = true := by
   decide
+
+theorem markers_nonempty : Facts.H.cosmeticMarkers.all (fun m => !m.isEmpty) = true := by decide
 
 theorem markerFirstChars_eq : Facts.H.cosmeticMarkerFirstChars = [ch '#', ch '$'] := by decide
 
@@ -102,73 +110,378 @@ theorem hasPrefix_head_ne {s m : Bytes} {a b : UInt8} (hs : s.head? = some a) (h
       subst hs hm
       simp [hasPrefix, hab]
 
-/-- Outside the carve-out, `NewRule` takes the line neither for a comment nor for a cosmetic rule. -/
-theorem not_comment_not_cosmetic (line : Bytes) (h : hostLineCarveOut line = false) :
+theorem indexByte_getElem? {s : Bytes} {c : UInt8} {i : Nat} (h : indexByte s c = some i) : s[i]? = some c := by
+  have := indexByte_head h
+  rwa [List.head?_drop] at this
+
+/-- The '$' round finds nothing on a line that does not start with '#' and whose text before the
+    comment sign contains no '$': the first '$' (if any) lies after the first '#', so
+    `inHostsComment` holds (the repair of D16). -/
+theorem dollarRound_skip (more : List UInt8) (markers : List Bytes) (line : Bytes)
+    (hhash : (line.head? == some (ch '#')) = false)
+    (hbody : (hostLineBody line).any (fun c => c == ch '$') = false) :
+    findCosmeticRuleMarkerWith (ch '$' :: more) markers line = findCosmeticRuleMarkerWith more markers line := by
+  apply findCosmeticRuleMarkerWith_skip
+  intro j hj
+  right; left
+  have hjd : line[j]? = some (ch '$') := indexByte_getElem? hj
+  unfold inHostsComment
+  unfold hostLineBody at hbody
+  cases hi : indexByte line (ch '#') with
+  | none =>
+    rw [hi] at hbody
+    simp only at hbody
+    have hmem : ch '$' ∈ line := List.mem_of_getElem? hjd
+    rw [List.any_eq_false] at hbody
+    exact absurd (by simp) (hbody _ hmem)
+  | some i =>
+    rw [hi] at hbody
+    simp only at hbody
+    have hih : line[i]? = some (ch '#') := indexByte_getElem? hi
+    have hipos : i > 0 := by
+      apply Nat.pos_of_ne_zero
+      intro h0
+      subst h0
+      have := indexByte_zero_head hi
+      rw [this] at hhash
+      simp at hhash
+    simp only [hipos, if_true] at hbody
+    have hij : i < j := by
+      rcases Nat.lt_trichotomy i j with h | h | h
+      · exact h
+      · subst h
+        rw [hih] at hjd
+        exact absurd hjd (by decide)
+      · exfalso
+        have : (line.take i)[j]? = some (ch '$') := by
+          rw [List.getElem?_take_of_lt h]; exact hjd
+        have hmem : ch '$' ∈ line.take i := List.mem_of_getElem? this
+        rw [List.any_eq_false] at hbody
+        exact hbody _ hmem (by simp)
+    simp [hipos, hij]
+
+/-- `isComment` only looks at the first byte (and, for '#', at the markers). -/
+theorem isCommentLine_false_of_head (line : Bytes) (hbang : (line.head? == some (ch '!')) = false)
+    (hhash : (line.head? == some (ch '#')) = false) : isCommentLine line = false := by
+  cases line with
+  | nil => rfl
+  | cons c rest =>
+    have h1 : (c == ch '!') = false := by simpa using hbang
+    have h2 : (c == ch '#') = false := by simpa using hhash
+    simp [isCommentLine, h1, h2]
+
+/-- A syntactic sufficient condition, for EVERY line: if the line does not start like a comment,
+    the text before the comment sign contains no '$', and the first '#' does not start a cosmetic
+    marker directly after a non-blank, then `NewRule` takes the line neither for a comment nor for a
+    cosmetic rule -- whatever follows the comment sign. -/
+theorem not_comment_not_cosmetic (line : Bytes) (h : hostLineOutside line = false) :
     isCommentLine line = false ∧ isCosmeticLine line = false := by
-  unfold hostLineCarveOut at h
+  unfold hostLineOutside at h
   simp only [Bool.or_eq_false_iff] at h
-  obtain ⟨⟨⟨⟨hbang, hhash⟩, hdd⟩, hdad⟩, hmark⟩ := h
-  constructor
-  · -- isComment
-    cases line with
-    | nil => rfl
-    | cons c rest =>
-      have h1 : (c == ch '!') = false := by simpa using hbang
-      have h2 : (c == ch '#') = false := by simpa using hhash
-      simp [isCommentLine, h1, h2]
-  · -- isCosmetic
-    unfold isCosmeticLine findCosmeticRuleMarker
-    rw [markerFirstChars_eq]
-    rw [findCosmeticRuleMarkerWith_skip, findCosmeticRuleMarkerWith_skip]
-    · simp [findCosmeticRuleMarkerWith]
-    · -- '$': no `$$` / `$@$` anywhere, and no '#'-marker can start at a '$'
-      intro j hj
-      right
+  obtain ⟨⟨⟨hbang, hhash⟩, hbody⟩, hmark⟩ := h
+  refine ⟨isCommentLine_false_of_head line hbang hhash, ?_⟩
+  unfold isCosmeticLine findCosmeticRuleMarker
+  rw [markerFirstChars_eq]
+  rw [findCosmeticRuleMarkerWith_skip, dollarRound_skip _ _ _ hhash hbody]
+  · simp [findCosmeticRuleMarkerWith]
+  · -- '#'
+    intro i hi
+    rw [hi] at hmark
+    simp only [Bool.and_eq_false_iff, decide_eq_false_iff_not, Bool.not_eq_false', Bool.not_eq_eq_eq_not,
+      Bool.not_true] at hmark
+    have hipos : i > 0 := by
+      apply Nat.pos_of_ne_zero
+      intro h0
+      subst h0
+      have := indexByte_zero_head hi
+      rw [this] at hhash
+      simp at hhash
+    rcases hmark with (hpos | hb) | hany
+    · exact absurd hipos hpos
+    · left
+      exact ⟨hipos, by simpa using hb⟩
+    · right; right
       intro m hm
-      have hshape := List.all_eq_true.mp markers_shape m hm
-      simp only [Bool.or_eq_true, beq_iff_eq] at hshape
-      cases hs : startsAtIndexWith line j m with
+      cases hs : startsAtIndexWith line i m with
       | false => rfl
       | true =>
         have hp := startsAtIndexWith_hasPrefix hs
-        rcases hshape with (hh | hh) | hh
-        · have := hasPrefix_head_ne (indexByte_head hj) hh (by decide)
-          rw [this] at hp; cases hp
-        · subst hh
-          rw [hasSub_of_hasPrefix_drop hp] at hdd; cases hdd
-        · subst hh
-          rw [hasSub_of_hasPrefix_drop hp] at hdad; cases hdad
-    · -- '#'
-      intro i hi
-      rw [hi] at hmark
-      simp only [Bool.and_eq_false_iff, decide_eq_false_iff_not, Bool.not_eq_false', Bool.not_eq_eq_eq_not,
-        Bool.not_true] at hmark
-      rcases hmark with (hpos | hb) | hany
-      · -- i = 0 contradicts "does not start with '#'"
-        have : i = 0 := by omega
-        subst this
-        have := indexByte_zero_head hi
-        rw [this] at hhash
-        simp at hhash
-      · left
-        constructor
-        · -- i > 0: otherwise the line starts with '#'
-          apply Nat.pos_of_ne_zero
-          intro h0
-          subst h0
-          have := indexByte_zero_head hi
-          rw [this] at hhash
-          simp at hhash
-        · simpa using hb
-      · right
-        intro m hm
-        cases hs : startsAtIndexWith line i m with
-        | false => rfl
-        | true =>
-          have hp := startsAtIndexWith_hasPrefix hs
-          have := List.any_eq_false.mp hany m hm
-          rw [hp] at this
-          simp at this
+        have := List.any_eq_false.mp hany m hm
+        rw [hp] at this
+        simp at this
+
+/-! ### The lines of the grammar: `pre ++ cmt` with a '#'-free, '$'-free `pre` -/
+
+/-- The last byte of `s` is a blank. -/
+def lastIsBlank (s : Bytes) : Bool :=
+  match s.getLast? with
+  | some b => isBlank b
+  | none => false
+
+theorem hasPrefix_length_le {s m : Bytes} (h : hasPrefix s m = true) : m.length ≤ s.length := by
+  induction m generalizing s with
+  | nil => simp
+  | cons y ys ih =>
+    cases s with
+    | nil => simp [hasPrefix] at h
+    | cons x xs =>
+      simp only [hasPrefix, Bool.and_eq_true] at h
+      have := ih h.2
+      simp only [List.length_cons]
+      omega
+
+theorem startsAtIndexWith_eq_hasPrefix (s : Bytes) (i : Nat) (m : Bytes) (hi : i ≤ s.length) :
+    startsAtIndexWith s i m = hasPrefix (s.drop i) m := by
+  unfold startsAtIndexWith
+  split
+  · rename_i hlt
+    cases hp : hasPrefix (s.drop i) m with
+    | false => rfl
+    | true =>
+      have := hasPrefix_length_le hp
+      simp only [List.length_drop] at this
+      omega
+  · rfl
+
+theorem getLast?_isBlank_eq (pre : Bytes) (hne : pre ≠ []) :
+    (pre[pre.length - 1]? == some (ch ' ') || pre[pre.length - 1]? == some (ch '\t')) = lastIsBlank pre := by
+  unfold lastIsBlank
+  rw [List.getLast?_eq_getElem?]
+  have : pre.length - 1 < pre.length := by
+    have := List.length_pos_iff.mpr hne
+    omega
+  rw [List.getElem?_eq_getElem this]
+  simp [isBlank]
+
+/-- The '#' round on `pre ++ '#' :: c`: the first '#' is the comment sign; it is looked at unless a
+    blank precedes it (it is never "inside the comment" itself). -/
+theorem hashRound_comment (more : List UInt8) (markers : List Bytes) (pre c : Bytes)
+    (hne : pre ≠ []) (hf : hashFree pre = true) :
+    findCosmeticRuleMarkerWith (ch '#' :: more) markers (pre ++ ch '#' :: c) =
+      if lastIsBlank pre then findCosmeticRuleMarkerWith more markers (pre ++ ch '#' :: c)
+      else match markers.find? (fun m => hasPrefix (ch '#' :: c) m) with
+        | some m => some (pre.length, m)
+        | none => findCosmeticRuleMarkerWith more markers (pre ++ ch '#' :: c) := by
+  have hidx : indexByte (pre ++ ch '#' :: c) (ch '#') = some pre.length := by
+    unfold indexByte
+    rw [indexByte_go_append_hit _ _ _ _ hf]
+    simp
+  have hpos : 0 < pre.length := List.length_pos_iff.mpr hne
+  rw [findCosmeticRuleMarkerWith, hidx]
+  simp only
+  have hprev : (pre ++ ch '#' :: c)[pre.length - 1]? = pre[pre.length - 1]? := by
+    rw [List.getElem?_append_left (by omega)]
+  have hin : inHostsComment (pre ++ ch '#' :: c) pre.length = false := by
+    unfold inHostsComment
+    rw [hidx]
+    simp
+  have hfind : markers.find? (fun m => startsAtIndexWith (pre ++ ch '#' :: c) pre.length m) =
+      markers.find? (fun m => hasPrefix (ch '#' :: c) m) := by
+    congr 1
+    funext m
+    rw [startsAtIndexWith_eq_hasPrefix _ _ _ (by simp)]
+    simp
+  rw [hprev, getLast?_isBlank_eq pre hne, hin, hfind]
+  simp only [hpos, decide_true, Bool.true_and, Bool.false_eq_true, if_false]
+  cases lastIsBlank pre with
+  | true => rfl
+  | false =>
+    simp only [Bool.false_eq_true, if_false]
+    cases List.find? (fun m => hasPrefix (ch '#' :: c) m) markers <;> rfl
+
+/-- `isCosmetic` on a line `pre ++ comment?` whose text before the comment sign is non-empty and
+    contains neither '#' nor '$': the line is cosmetic syntax exactly when the comment sign directly
+    follows a non-blank and begins a cosmetic marker.  NOTHING else in the comment matters. -/
+theorem isCosmeticLine_pre_cmt (pre cmt : Bytes) (hne : pre ≠ []) (hf : hashFree pre = true)
+    (hd : dollarFree pre = true) (hc : isCommentTail cmt = true) :
+    isCosmeticLine (pre ++ cmt) =
+      (!lastIsBlank pre && Facts.H.cosmeticMarkers.any (fun m => hasPrefix cmt m)) := by
+  have hhead : ((pre ++ cmt).head? == some (ch '#')) = false := by
+    cases pre with
+    | nil => exact absurd rfl hne
+    | cons a t =>
+      simp only [hashFree, List.all_cons, Bool.and_eq_true, bne_iff_ne, ne_eq] at hf
+      simpa using hf.1
+  have hbody : (hostLineBody (pre ++ cmt)).any (fun c => c == ch '$') = false := by
+    rw [hostLineBody_tail pre cmt hne hf hc, List.any_eq_false]
+    intro x hx
+    have := List.all_eq_true.mp hd x hx
+    simpa using this
+  unfold isCosmeticLine findCosmeticRuleMarker
+  rw [markerFirstChars_eq]
+  cases cmt with
+  | nil =>
+    have hany : Facts.H.cosmeticMarkers.any (fun m => hasPrefix [] m) = false := by decide
+    rw [hany, Bool.and_false]
+    rw [findCosmeticRuleMarkerWith_skip, dollarRound_skip _ _ _ hhead hbody]
+    · simp [findCosmeticRuleMarkerWith]
+    · intro i hi
+      exfalso
+      have hnone : indexByte (pre ++ []) (ch '#') = none := by
+        unfold indexByte
+        rw [List.append_nil]
+        exact indexByte_go_none _ _ _ hf
+      rw [hnone] at hi
+      cases hi
+  | cons x c =>
+    have hx : x = ch '#' := by simpa [isCommentTail] using hc
+    subst hx
+    rw [hashRound_comment _ _ pre c hne hf, dollarRound_skip _ _ _ hhead hbody]
+    cases hb : lastIsBlank pre with
+    | true => simp [findCosmeticRuleMarkerWith]
+    | false =>
+      simp only [Bool.false_eq_true, if_false, Bool.not_false, Bool.true_and]
+      cases hfd : List.find? (fun m => hasPrefix (ch '#' :: c) m) Facts.H.cosmeticMarkers with
+      | none =>
+        have : Facts.H.cosmeticMarkers.any (fun m => hasPrefix (ch '#' :: c) m) = false := by
+          rw [List.find?_eq_none] at hfd
+          rw [List.any_eq_false]
+          exact fun m hm => by simpa using hfd m hm
+        simp [this, findCosmeticRuleMarkerWith]
+      | some m =>
+        have : Facts.H.cosmeticMarkers.any (fun m => hasPrefix (ch '#' :: c) m) = true := by
+          rw [List.any_eq_true]
+          exact ⟨m, List.mem_of_find?_eq_some hfd, List.find?_some hfd⟩
+        simp [this]
+
+theorem isCommentLine_pre_cmt (pre cmt : Bytes) (hne : pre ≠ []) (hf : hashFree pre = true)
+    (hbang : (pre.head? == some (ch '!')) = false) : isCommentLine (pre ++ cmt) = false := by
+  cases pre with
+  | nil => exact absurd rfl hne
+  | cons a t =>
+    simp only [hashFree, List.all_cons, Bool.and_eq_true, bne_iff_ne, ne_eq] at hf
+    apply isCommentLine_false_of_head
+    · simpa using hbang
+    · simpa using hf.1
+
+theorem lastIsBlank_append_tok (a tok : Bytes) (hne : tok ≠ []) (hb : blankFree tok = true) :
+    lastIsBlank (a ++ tok) = false := by
+  unfold lastIsBlank
+  rw [List.getLast?_append]
+  cases hl : tok.getLast? with
+  | none =>
+    rw [List.getLast?_eq_none_iff] at hl
+    exact absurd hl hne
+  | some b =>
+    show (match (some b).or a.getLast? with | some b => isBlank b | none => false) = _
+    simp only [Option.some_or]
+    have hmem : b ∈ tok := List.mem_of_getLast? hl
+    have := List.all_eq_true.mp hb b hmem
+    simpa using this
+
+theorem lastIsBlank_append_blank (a w : Bytes) (hne : w ≠ []) (hw : allBlank w = true) :
+    lastIsBlank (a ++ w) = true := by
+  unfold lastIsBlank
+  rw [List.getLast?_append]
+  cases hl : w.getLast? with
+  | none =>
+    rw [List.getLast?_eq_none_iff] at hl
+    exact absurd hl hne
+  | some b =>
+    show (match (some b).or a.getLast? with | some b => isBlank b | none => false) = _
+    simp only [Option.some_or]
+    have hmem : b ∈ w := List.mem_of_getLast? hl
+    exact List.all_eq_true.mp hw b hmem
+
+theorem lastIsBlank_namesText (a : Bytes) (wn : List (Bytes × Bytes)) (hwn : goodPairs wn = true)
+    (hne : wn ≠ []) : lastIsBlank (a ++ namesText wn) = false := by
+  induction wn generalizing a with
+  | nil => exact absurd rfl hne
+  | cons p rest ih =>
+    obtain ⟨w, n⟩ := p
+    simp only [goodPairs, List.all_cons, Bool.and_eq_true] at hwn
+    obtain ⟨⟨_, hn⟩, hrest⟩ := hwn
+    simp only [isHostToken, Bool.and_eq_true, Bool.not_eq_eq_eq_not, Bool.not_true] at hn
+    have hnne : n ≠ [] := by intro h; subst h; simp at hn
+    cases rest with
+    | nil =>
+      simp only [namesText, List.append_nil]
+      rw [← List.append_assoc]
+      exact lastIsBlank_append_tok _ n hnne hn.1.2
+    | cons q rest' =>
+      have := ih (a ++ w ++ n) (by simpa [goodPairs] using hrest) (by simp)
+      simpa [namesText, List.append_assoc] using this
+
+theorem dollarFree_append {a b : Bytes} : dollarFree (a ++ b) = (dollarFree a && dollarFree b) := by
+  simp [dollarFree]
+
+theorem dollarFree_of_allBlank {w : Bytes} (h : allBlank w = true) : dollarFree w = true := by
+  unfold dollarFree
+  rw [List.all_eq_true]
+  intro x hx
+  have := List.all_eq_true.mp h x hx
+  simp only [isBlank, Bool.or_eq_true, beq_iff_eq] at this
+  rcases this with h | h <;> subst h <;> decide
+
+theorem dollarFree_namesText (wn : List (Bytes × Bytes)) (hwn : goodPairs wn = true)
+    (hd : dollarFreePairs wn = true) : dollarFree (namesText wn) = true := by
+  induction wn with
+  | nil => rfl
+  | cons p rest ih =>
+    obtain ⟨w, n⟩ := p
+    simp only [goodPairs, List.all_cons, Bool.and_eq_true] at hwn
+    simp only [dollarFreePairs, List.all_cons, Bool.and_eq_true] at hd
+    obtain ⟨⟨hw, _⟩, hrest⟩ := hwn
+    simp only [isBlankRun, Bool.and_eq_true] at hw
+    simp only [namesText, dollarFree_append, dollarFree_of_allBlank hw.2, hd.1, Bool.true_and]
+    exact ih (by simpa [goodPairs] using hrest) (by simpa [dollarFreePairs] using hd.2)
+
+/-- The last byte of `body ++ trail` (body ending in a non-blank, `trail` a run of blanks) is a blank
+    iff `trail` is non-empty. -/
+theorem lastIsBlank_trail (body trail : Bytes) (hbody : lastIsBlank body = false)
+    (ht : allBlank trail = true) : lastIsBlank (body ++ trail) = !trail.isEmpty := by
+  cases trail with
+  | nil => simpa using hbody
+  | cons c t => simpa using lastIsBlank_append_blank body (c :: t) (by simp) ht
+
+/-- For the lines `IP names… trail cmt` of the property's grammar (names and address without '$', the
+    address not starting with '!') the carve-out computed by the model is EXACTLY the one the property
+    states: the comment sign directly follows a name and begins a cosmetic marker. -/
+theorem carveOut_hostLineIP (ip : Bytes) (wn : List (Bytes × Bytes)) (trail cmt : Bytes)
+    (hip : isHostToken ip = true) (hwn : goodPairs wn = true) (hne : wn ≠ [])
+    (ht : allBlank trail = true) (hc : isCommentTail cmt = true)
+    (hipd : isPlainToken ip = true) (hwnd : dollarFreePairs wn = true) :
+    hostLineCarveOut (hostLineIP ip wn trail cmt) = commentIsMarker trail cmt := by
+  simp only [isHostToken, Bool.and_eq_true, Bool.not_eq_eq_eq_not, Bool.not_true] at hip
+  obtain ⟨⟨hipne, hipb⟩, hiph⟩ := hip
+  simp only [isPlainToken, Bool.and_eq_true, Bool.not_eq_eq_eq_not, Bool.not_true] at hipd
+  have hipne' : ip ≠ [] := by intro h; subst h; simp at hipne
+  have hprene : ip ++ namesText wn ++ trail ≠ [] := by simp [hipne']
+  have hf : hashFree (ip ++ namesText wn ++ trail) = true := by
+    simp [hashFree_append, hiph, hashFree_namesText wn hwn, hashFree_of_allBlank ht]
+  have hd : dollarFree (ip ++ namesText wn ++ trail) = true := by
+    simp [dollarFree_append, hipd.1, dollarFree_namesText wn hwn hwnd, dollarFree_of_allBlank ht]
+  have hbang : ((ip ++ namesText wn ++ trail).head? == some (ch '!')) = false := by
+    cases ip with
+    | nil => exact absurd rfl hipne'
+    | cons a t => simpa using hipd.2
+  unfold hostLineCarveOut hostLineIP commentIsMarker
+  rw [isCommentLine_pre_cmt _ cmt hprene hf hbang, isCosmeticLine_pre_cmt _ cmt hprene hf hd hc,
+    lastIsBlank_trail _ trail (lastIsBlank_namesText ip wn hwn hne) ht]
+  simp
+
+/-- The same for `name trail cmt`. -/
+theorem carveOut_hostLineBare (name trail cmt : Bytes)
+    (hn : isHostToken name = true) (ht : allBlank trail = true) (hc : isCommentTail cmt = true)
+    (hnd : isPlainToken name = true) :
+    hostLineCarveOut (hostLineBare name trail cmt) = commentIsMarker trail cmt := by
+  simp only [isHostToken, Bool.and_eq_true, Bool.not_eq_eq_eq_not, Bool.not_true] at hn
+  obtain ⟨⟨hnne, hnb⟩, hnh⟩ := hn
+  simp only [isPlainToken, Bool.and_eq_true, Bool.not_eq_eq_eq_not, Bool.not_true] at hnd
+  have hnne' : name ≠ [] := by intro h; subst h; simp at hnne
+  have hprene : name ++ trail ≠ [] := by simp [hnne']
+  have hf : hashFree (name ++ trail) = true := by
+    simp [hashFree_append, hnh, hashFree_of_allBlank ht]
+  have hd : dollarFree (name ++ trail) = true := by
+    simp [dollarFree_append, hnd.1, dollarFree_of_allBlank ht]
+  have hbang : ((name ++ trail).head? == some (ch '!')) = false := by
+    cases name with
+    | nil => exact absurd rfl hnne'
+    | cons a t => simpa using hnd.2
+  unfold hostLineCarveOut hostLineBare commentIsMarker
+  rw [isCommentLine_pre_cmt _ cmt hprene hf hbang, isCosmeticLine_pre_cmt _ cmt hprene hf hd hc,
+    lastIsBlank_trail _ trail (by simpa using lastIsBlank_append_tok [] name hnne' hnb) ht]
+  simp
 
 end UF.H
 
